@@ -286,9 +286,11 @@ def run_e2e(case):
 
 
 # =========================================================================== compare_models
-def _cmp_sample(d, n_sim):
+def _cmp_sample(d, n_sim, shape='flat'):
     from elfi.methods.results import Sample
     d = np.array([float(x) for x in d], dtype=float)
+    if shape == 'col':      # what Rejection returns for a discrepancy node with (batch_size, 1) output
+        d = d[:, None]
     return Sample(method_name='Rejection', outputs={'t': np.zeros(len(d)), 'd': d}, parameter_names=['t'],
                   discrepancy_name='d', n_sim=int(n_sim))
 
@@ -315,7 +317,9 @@ def _cmp_check(case):
     m = len(ds)
     cands, tie = ref.ref_compare(ds, nsims, w)
     unique = len(cands) == 1
-    samples = [_cmp_sample(d, ns) for d, ns in zip(ds, nsims)]
+    shape = case.get('shape', 'flat')
+    stag = ':column-shaped-discrepancies' if shape == 'col' else ''
+    samples = [_cmp_sample(d, ns, shape) for d, ns in zip(ds, nsims)]
     if w is None:
         pri = None
     elif wmode == 'norm':
@@ -342,7 +346,9 @@ def _cmp_check(case):
             if not ident and sig in ('C17:compare:formula-mismatch', 'C17:compare:tie-at-cut:no-valid-split-gives-result'):
                 sig = 'C17:compare:result-does-not-permute-with-models'
                 det['first_order_result'] = first
-            return bad(sig, det, calls=ncalls)
+            if stag and sig not in ('C17:compare:wrong-shape', 'C17:compare:not-summing-to-one'):
+                sig = 'C17:compare:wrong-probabilities'      # one root cause, one signature
+            return bad(sig + stag, det, calls=ncalls)
         if first is None:
             first = np.asarray(p).tolist()
     return ok(outcome=_h48(np.round(np.asarray(first), 12)), calls=ncalls, tie_at_cut=int(tie),
@@ -364,9 +370,14 @@ def run_cmp_e2e(case):
         m, dname, _ = models.build(kind, obs=float(obs))
         rej = elfi.Rejection(m, dname, batch_size=case['bs'], seed=case['seed'])
         samples.append(rej.sample(n, n_sim=nsim, bar=False))
-    ds = [np.asarray(s.discrepancies, dtype=float).tolist() for s in samples]
-    if any(np.ndim(s.discrepancies) != 1 for s in samples):
-        raise AssertionError('harness: toy model does not return 1-d discrepancies')
+    ds, stag = [], ''
+    for s in samples:
+        d = np.asarray(s.discrepancies, dtype=float)
+        if d.ndim == 2 and d.shape[1] == 1:
+            d, stag = d[:, 0], ':column-shaped-discrepancies'
+        if d.ndim != 1:
+            raise AssertionError('harness: toy model does not return scalar discrepancies')
+        ds.append(d.tolist())
     nsims = [int(s.n_sim) for s in samples]
     w = case.get('w')
     cands, tie = ref.ref_compare(ds, nsims, w)
@@ -378,7 +389,11 @@ def run_cmp_e2e(case):
         ncalls += 1
         sig = _cmp_judge(p, [tuple(c[i] for i in perm) for c in cands], tie)
         if sig:
-            return bad(sig + ':rejection-sample', {'order': list(perm), 'got': np.asarray(p).tolist(), 'ds': ds,
+            if stag and sig not in ('C17:compare:wrong-shape', 'C17:compare:not-summing-to-one'):
+                return bad('C17:compare:wrong-probabilities' + stag,
+                           {'order': list(perm), 'got': np.asarray(p).tolist(), 'ds': ds, 'nsims': nsims, 'w': w,
+                            'from': 'Rejection samples'}, calls=ncalls)
+            return bad(sig + stag + ':rejection-sample', {'order': list(perm), 'got': np.asarray(p).tolist(), 'ds': ds,
                                                    'nsims': nsims, 'w': w}, calls=ncalls)
     return ok(outcome=_h48((ds, nsims, w)), calls=ncalls, tie_at_cut=int(tie), open_share=int(len(cands) > 1),
               unique_share=int(len(cands) == 1))
@@ -447,7 +462,8 @@ def gen_cmp(b):
             continue
         chosen = [sp[i][j] for i, j in enumerate(idx)]
         yield {'kind': 'cmp', 'ds': [c[0] for c in chosen], 'nsims': [c[1] for c in chosen],
-               'w': None if b['wmode'] == 'none' else [c[2] for c in chosen], 'wmode': b['wmode']}
+               'w': None if b['wmode'] == 'none' else [c[2] for c in chosen], 'wmode': b['wmode'],
+               'shape': b.get('shape', 'flat')}
 
 
 GENS = {'blk-grid': (gen_grid, run_adj), 'blk-place': (gen_place, run_adj), 'blk-cmp': (gen_cmp, run_cmp)}
@@ -586,6 +602,9 @@ CMP_QUICK = [
     ((1, 1, 2), [0, 1, 2], [1, 5], [('norm', [2, 5])]),
     ((1, 2, 2), [0, 1, 2], [1, 5], [('none', None), ('norm', [2, 5])]),
 ]
+CMP_COL_QUICK = [((1, 2), [0, 1, 2], [1, 2, 5], [('none', None)]), ((2, 2), [0, 1, 2], [1, 5], [('norm', [2, 5])])]
+CMP_COL_THOROUGH = CMP_COL_QUICK + [((2, 3), [0, 1, 2], [1, 2, 5], [('none', None)]),
+                                    ((1, 1, 2), [0, 1, 2], [1, 5], [('norm', [2, 5])])]
 D4 = [0, 1, 2, 'inf']
 ALLW = [('none', None), ('norm', [1, 2, 5]), ('raw', [1, 2, 5]), ('norm-array', [1, 2, 5])]
 CMP_THOROUGH = [
@@ -736,7 +755,9 @@ def run(ctx):
 
     # ------------------------------------------------------------------ compare_models
     blocks = []
-    for sizes, dv, nsims, wlist in (CMP_QUICK if q else CMP_THOROUGH):
+    table = [(c, 'flat') for c in (CMP_QUICK if q else CMP_THOROUGH)] + \
+            [(c, 'col') for c in (CMP_COL_QUICK if q else CMP_COL_THOROUGH)]
+    for (sizes, dv, nsims, wlist), shape in table:
         for wmode, wv in wlist:
             counts = [len(_specs(n, dv, nsims, [None] if wmode == 'none' else wv)) for n in sizes]
             total = 1
@@ -745,12 +766,13 @@ def run(ctx):
             step = max(1, counts[0] * 1200 // total)
             for lo, hi in _chunks(counts[0], step):
                 blocks.append({'kind': 'blk-cmp', 'sizes': list(sizes), 'dvals': dv, 'nsims': nsims, 'wvals': wv,
-                               'wmode': wmode, 'lo': lo, 'hi': hi})
+                               'wmode': wmode, 'lo': lo, 'hi': hi, 'shape': shape})
     section('compare', _run_blocks, blocks, 'compare')
 
     cases = []
     for seed in range(base, base + (4 if q else 20)):
-        for mods in ([['M1', 2.0], ['M1', 3.0]], [['M1', 2.0], ['M1', 4.0], ['M1', 1.0]], [['M1', 2.0], ['Minf', 2.0]]):
+        for mods in ([['M1', 2.0], ['M1', 3.0]], [['M1', 2.0], ['M1', 4.0], ['M1', 1.0]], [['M1', 2.0], ['Minf', 2.0]],
+                     [['Mcol', 2.0], ['Mcol', 4.0]]):
             for ns_ in ((2, 3, 2), (4, 4, 4)) if q else ((1, 2, 3), (2, 3, 2), (4, 4, 4), (5, 3, 6)):
                 for w in (None, [1, 2, 5]):
                     cases.append({'kind': 'cmp-e2e', 'seed': seed, 'models': mods, 'ns': list(ns_[:len(mods)]),
@@ -775,7 +797,7 @@ def run(ctx):
         '(incl. fewer rows than columns) any least-squares slope is accepted (normal equations + column-space test) '
         'and affine invariance is not demanded; a parameter without any finite row may be rejected with an exception',
         'a row at the observed summaries must be returned unchanged up to 1e-12 relative',
-        'compare_models: 1-d discrepancy arrays without nan; weights exact rationals in the oracle, floats compared '
+        'compare_models: discrepancy arrays of shape (n,) and (n,1) (both are returned by Rejection) without nan; weights exact rationals in the oracle, floats compared '
         'with rtol 1e-12; with a tie at the cut every split of the tied values between the models is accepted',
         'reference = numpy.linalg.lstsq with explicit intercept column / fractions; trusted',
         'reusing one LinearAdjustment object for a second fit is treated as legitimate use of adjust_posterior('
